@@ -24,7 +24,7 @@ RULE = ("one run = one drawn device state (7 hashes, difficulty, 3 flag bytes, c
         "uiHeartbeat mode walk with drawn boot delays / post-exit modes / link-death kinds; "
         "non-trivial = all query kinds answered; distinct = tuple (difficulty length class, "
         "flag bytes, network, DER shapes, walk class, initial mode)")
-TIERS = {"quick": {"runs": 20000, "wall": 100}, "thorough": {"runs": 800000, "wall": 1200}}
+TIERS = {"quick": {"runs": 100000, "wall": 240}, "thorough": {"runs": 2000000, "wall": 3000}}
 COMPONENTS = {
     "real": ["comm.server._RequestHandler", "comm.protocol", "ledger.protocol",
              "ledger.hsm2dongle", "ledger.parameters", "ledger.signature",
